@@ -346,4 +346,27 @@ def record_defaults(ctx, a, f, rule):
         absent = any((f"not in {datum}" in g and lab == "true") or (f" in {datum}" in g and "not in" not in g and lab == "false") for g, lab in guards)
         ctx.check(rule, f"{f.qualname}: default used under an absence test", absent, f.where(n), f"{f.qualname}: {norm(par) if par is not None else norm(n)}", "the field default is substituted on a condition other than the key being absent (an explicit value such as None would be replaced)")
     if found == 0:
-        ctx.unrecognised(rule, f.qualname, f.where(), "no use of the field default found in the record writer")
+        # the default may be fetched by a helper: then the helper must hand it over as it is
+        from sa.pathsum import summaries as _summ
+
+        helper_seen = False
+        for c in walk_local(f.node):
+            if not (isinstance(c, ast.Call) and isinstance(c.func, ast.Name)):
+                continue
+            g = a.p.resolve_func(f.mod, c.func)
+            if g is None or g.cls is not None or g is f:
+                continue
+            reads = [n for n in ast.walk(g.node) if (isinstance(n, ast.Call) and isinstance(n.func, ast.Attribute) and n.func.attr == "get" and n.args and isinstance(n.args[0], ast.Constant) and n.args[0].value == "default") or (isinstance(n, ast.Subscript) and isinstance(n.slice, ast.Constant) and n.slice.value == "default" and isinstance(n.ctx, ast.Load))]
+            if not reads:
+                continue
+            helper_seen = True
+            plain = {norm(r) for r in reads}
+            node = cfg.node_of(c)
+            guards = [(norm(t.ast), lab) for (t, lab) in cfg.guards_of(node)]
+            absent = any((f"not in {datum}" in g_ and lab == "true") or (f" in {datum}" in g_ and "not in" not in g_ and lab == "false") for g_, lab in guards)
+            ctx.check(rule, f"{f.qualname}: default (through {g.name}) used under an absence test", absent, f.where(c), f"{f.qualname}: {norm(c)}", "the field default is substituted on a condition other than the key being absent (an explicit value such as None would be replaced)")
+            rets = [s for s in _summ(cfg_of(g), max_paths=500) if s.kind == "return"]
+            changed = [s for s in rets if s.text not in plain]
+            ctx.check(rule, f"{g.qualname}: the default is handed over as the schema gives it", not changed, g.where(changed[0].node) if changed else g.where(), f"{g.qualname}: returns `{changed[0].text[:80]}` under {sorted(changed[0].facts)[:3]}" if changed else "", "the value written for an absent field is not the schema's default but something computed from it: the record does not read back with the default")
+        if not helper_seen:
+            ctx.unrecognised(rule, f.qualname, f.where(), "no use of the field default found in the record writer")
